@@ -7,7 +7,7 @@ to positions (section index, retriever indices, index-history positions); links 
 `.skip`; the `on_commit` dependencies of the retriever a link pushes to are resolved to refresh actions (target retriever +
 its `on_refresh SET_VALUE` eval). Anything the engine does not model makes the generator FAIL.
 """
-import ast, glob, json, os, sys
+import ast, glob, json, os, re, sys
 
 sys.path.insert(0, os.path.dirname(os.path.abspath(__file__)))
 import gen_structure as GS
@@ -281,6 +281,23 @@ def generate(repo, outdir_lean, outdir_json, write_if_changed):
                                     f"      Aoe.Props.C05.Diverge p q) : getAt q s1.root = getAt q s2.root :=\n"
                                     f"  (Aoe.Props.Links.edit_lands_only_there {mod}.classes fuel {cid} hist s s1 s2 vals1 vals2 {mod}.c{cid} rfl\n"
                                     f"    plainOnly_{mod}_{cname} pathsDistinct_{mod}_{cname} h1 h2 (fun _ _ => .error .shape)).2 q hq\n")
+        # object-list links: the struct list ends up with as many records as there are objects (side conditions by `decide`)
+        for cid, (cname, links) in enumerate(g.class_defs):
+            for j, l in enumerate(links):
+                m_ = re.search(r"\.objs \[([^\]]*)\]", l)
+                if not m_:
+                    continue
+                depth = m_.group(1).count(".hidx")
+                laws_src.append(f"theorem listSafe_{mod}_{cname}_{j} : Aoe.Props.CommitFrame.listSafe {mod}.classes 3 {mod}.c{cid} {depth} {j} = true := by decide")
+                laws_src.append(f"/-- after the commit of a {cname} (version {v}) the struct list of its object-list link number {j} holds exactly as many\n"
+                                f"records as the {cname} holds objects there -/\n"
+                                f"theorem list_len_{mod}_{cname}_{j} (hist : List Nat) (hh : hist.length = {depth}) (vals : List Val) (s s' : Sections)\n"
+                                f"    (h : commitObj {mod}.classes 4 {cid} hist (.strct vals) s = .ok s') (os : List Val) (hv : vals[{j}]? = some (.list os)) :\n"
+                                f"    ∃ a path ccls defaults childNames guards acts names,\n"
+                                f"      {mod}.c{cid}.links[{j}]? = some (a, .objs path ccls defaults childNames guards acts names) ∧\n"
+                                f"      ∀ p, resolve hist path = some p → Aoe.Props.CommitFrame.ListLen p os.length s'.root :=\n"
+                                f"  Aoe.Props.CommitFrame.commit_objs_len_of_safe {mod}.classes 3 {cid} hist vals s s' {mod}.c{cid} rfl h {j}\n"
+                                f"    (by rw [hh]; exact listSafe_{mod}_{cname}_{j}) os hv\n")
         mods.append((v, mod))
         meta_all[v] = {"classes": g.meta, "managers": [c.__name__ for c in mgr_classes]}
     agg = "\n".join(f"import Aoe.Generated.{m}" for _, m in mods) + "\n/-! GENERATED by tools/gen_mgr.py -/\nnamespace Aoe.Generated\nopen Aoe.Commit\n"
@@ -288,7 +305,7 @@ def generate(repo, outdir_lean, outdir_json, write_if_changed):
     agg += "\n".join(f"  {'if' if i == 0 else 'else if'} v == \"{v}\" then some ({m}.classes, {m}.managers, {m}.secNames)" for i, (v, m) in enumerate(mods))
     agg += "\n  else none\nend Aoe.Generated\n"
     fn = os.path.join(outdir_lean, "MgrTables.lean"); write_if_changed(fn, agg); files.append(fn)
-    laws = ("import Aoe.Props.Links\nimport Aoe.Generated.MgrTables\n/-! GENERATED by tools/gen_mgr.py – `commit ∘ construct = id` instantiated at every generated class "
+    laws = ("import Aoe.Props.Links\nimport Aoe.Props.CommitFrame\nimport Aoe.Generated.MgrTables\n/-! GENERATED by tools/gen_mgr.py – `commit ∘ construct = id` instantiated at every generated class "
             "whose links are plain value links without refresh actions (side condition closed by `decide`). -/\n"
             "namespace Aoe.Generated.MgrLaws\nopen Aoe Aoe.Codec Aoe.Lens Aoe.Commit Aoe.Generated\n\n" + "\n".join(laws_src) + "\nend Aoe.Generated.MgrLaws\n")
     fn = os.path.join(outdir_lean, "MgrLaws.lean"); write_if_changed(fn, laws); files.append(fn)
